@@ -67,6 +67,7 @@ def gen_cases(ctx, count):
         if nv == 1: vars_ = [0] * n
         elif rng.random() < 0.7: vars_ = [i % nv for i in range(n)]   # interleaved unknowns
         else: vars_ = [rng.randrange(nv) for i in range(n)]
+        ppn += 10 * rng.choice([0, 0, 1, 2, 3])       # state of the operand (tens digit, see drv_interp): fresh / sorted / sorted+diag first / used before
         cases.append(mk_case("s%d" % k, sym, theta, tap, ppn, nv, vars_, n, rows, cuts, kind))
     return cases
 
